@@ -94,6 +94,37 @@ Theorem C07_crash_image_le8 : forall c h fs0 ds d k, (k <= 8)%nat ->
   crash_image (archive c h fs0 ds) (append_trace c h fs0 ds d) k = archive c h fs0 ds.
 Proof. exact crash_image_le8. Qed.
 
+(* ---- degenerate snapshots are inside the quantification of all theorems above: a delta may be EMPTY (snapshot
+   byte-identical to snapshot 0: blob = END field only, offset_next = 16, 28 bytes with its trailer), equal to its
+   predecessor, the archive may consist of one snapshot (ds = []), the cut may be the very last byte (k = |trace|-1) *)
+Theorem C07_empty_delta_is_a_blob : forall c, small_d c [] /\ blen [] = 16 /\ forall d, 16 <= blen d.
+Proof. intros c. split; [apply small_d_nil|]. split; [apply blen_nil|apply blen_ge16]. Qed.
+
+(* instance: the repair walk passes empty deltas - archive [empty; d1; empty; empty], crash in the append of an empty
+   delta (the smallest possible write: 40 bytes) at every cut *)
+Theorem C07_repair_walk_passes_empty_deltas : forall c, wf_cfg c -> forall h fs0 d1 k, small_d c d1 -> (k < 40)%nat ->
+  let ds := [[]; d1; []; []] in
+  let A := archive c h fs0 ds in
+  let img := crash_image A (append_trace c h fs0 ds []) k in
+  repair_walk c (S (length img)) img (lenN (h ++ ser fs0 ++ endhdr c)) (lenN (h ++ ser fs0 ++ endhdr c) + 12) = lenN A.
+Proof.
+  intros c WC h fs0 d1 k SD Hk ds A img. apply repair_crash; try assumption.
+  - constructor; [apply small_d_nil|constructor; [exact SD|constructor; [apply small_d_nil|constructor; [apply small_d_nil|constructor]]]].
+  - apply small_d_nil.
+  - vm_compute. reflexivity.
+Qed.
+Print Assumptions C07_repair_walk_passes_empty_deltas.
+
+(* the same on a concrete file, by computation: one-snapshot archive + empty delta, cut at the very last byte *)
+Example C07_one_snapshot_archive_last_byte :
+  let A := archive sp_c sp_h sp_fs0 [] in
+  let tr := append_trace sp_c sp_h sp_fs0 [] [] in
+  length (snd tr) = 40%nat /\
+  open_archive sp_c (crash_image A tr 39) = OOk (mkI (blobs_of sp_c sp_h sp_fs0 []) true) /\
+  open_archive sp_c (crash_image A tr 40) = OOk (mkI (blobs_of sp_c sp_h sp_fs0 [[]]) false) /\
+  repair_walk sp_c 200 (crash_image A tr 39) (lenN (sp_h ++ ser sp_fs0 ++ endhdr sp_c)) 0 = lenN A.
+Proof. vm_compute. repeat split; reflexivity. Qed.
+
 (* ... and the hypothesis that the corruption test of save_to_file fires (no_spoof) is necessary: a payload that
    looks like END ++ trailer with a consistent back-link defeats it (cut 92); one byte earlier it fires (cut 91).
    Replayed on the real library by tools/c07.py (open known finding restart-spoofed-tail). *)
